@@ -2,16 +2,17 @@
 use super::*;
 use super::libxcp::{Result, XcpError, AnyError, Reflink, Backup, target_base_of};
 
-/// mirror of the fields of `Opts` (src/options.rs, a clap derive struct) that main's validation reads
-pub struct Opts {
-    pub recursive: bool,
-    pub no_clobber: bool,
-    pub force: bool,
-    pub glob: bool,
-    pub no_target_directory: bool,
-    pub target_directory: Option<String>,
-    pub reflink: Reflink,
-    pub paths: Vec<String>,
+pub use super::libxcp::Config;
+/// `Opts` itself is extracted verbatim from src/options.rs (field attributes dropped); these are the types its fields use
+pub enum Drivers { ParFile, ParBlock }
+pub mod num_cpus {
+    #[allow(unused_imports)] use super::*;
+    #[verifier::external_body]
+    pub fn get() -> (r: usize) ensures r >= 1 { unimplemented!() }
+}
+impl vstd::std_specs::convert::FromSpecImpl<&Opts> for Config {
+    open spec fn obeys_from_spec() -> bool { false }   // workers depends on num_cpus::get(): stated field by field in the contract instead
+    uninterp spec fn from_spec(o: &Opts) -> Config;
 }
 
 pub assume_specification<T> [<[T]>::split_last] (s: &[T]) -> (r: std::option::Option<(&T, &[T])>)
